@@ -120,6 +120,9 @@ impl<T: Sync + Send + 'static> Worker<T> {
                 Match { score, idx }
             });
             self.matches.par_extend(items);
+            // the parallel scan pushes in-flight indices in arbitrary order but
+            // `remove_in_flight_matches` relies on them being sorted
+            self.in_flight.sort_unstable();
             self.last_snapshot = end;
         }
     }
